@@ -303,6 +303,8 @@ static Case gen_case(bool th)
     i64 N = th ? 70 : 20;
     int big = verif::weighted({80, 20});
     i64 w = big ? verif::pick(1, N) : verif::pick(1, 9), h = big ? verif::pick(1, N / 2 + 1) : verif::pick(1, 9);
+    // JPEG: the compressed stream has to outgrow the writer's 1 KiB buffer several times for the flush path to matter
+    if (entry_fmt(e) == F_JPEG && verif::coin(35)) { w = verif::pick(24, th ? 90 : 64); h = verif::pick(17, th ? 60 : 40); }
     if (entry_fmt(e) == F_TIFF && verif::coin(20)) { w = verif::one_of<i64>({15, 16, 17, 31, 32, 33, 48}); h = verif::one_of<i64>({1, 15, 16, 17, 32, 33}); }
     c.set("w", w); c.set("h", h);
     c.set("org", verif::weighted({40, 20, 15, 15, 10}));
